@@ -892,7 +892,7 @@ pub fn run(run: &'static Run) {
          x ofs distances {same boundaries, B_j=sum 128^i (+-2,+-1,+127,+128) for every encoded width 1..10, MAX} / 4 base ids, x 5 trailing-byte variants x 3 pack offsets; \
          decode-agreement: all byte strings = 32 first bytes (type 0..7 x low nibble {0,f} x continuation) followed by <=5 (quick) / <=7 (thorough) bytes over {00,01,7f,80,ff}; \
          git-reads-ours: packs assembled from gitoxide-written headers + stored zlib bodies, object sizes up to 2^18+1 (quick) / 2^25+1 (thorough) and ofs distances at the 1|2, 2|3, 3|4 (thorough: 4|5) byte boundaries; \
-         git-delta-*: texts = block sequences over a=16B,b=64B,E=0x10001B,F=0xffb0B: quick length<=3 over {b,E} + length<=2 over {a,b,E,F} (28 texts); thorough length<=4 over {a,b,E} + length<=3 over {a,b,E,F} (165 texts) and a 16MiB block for 4-byte copy offsets, all ordered pairs (thin, ref-delta forced by git) and all unordered pairs x {ofs,ref} (thorough; quick: ofs only, texts of <=2 blocks); \
+         git-delta-*: texts = block sequences over a=16B,b=64B,E=0x10001B,F=0xffb0B: quick length<=3 over {b,E} + length<=2 over {a,b,E,F} (28 texts); thorough length<=3 over {a,b,E} + length<=2 over {a,b,E,F} (47 texts) and a 16MiB block for 4-byte copy offsets, all ordered pairs (thin, ref-delta forced by git) and all unordered pairs x {ofs,ref} (thorough; quick: ofs only, texts of <=2 blocks); \
          non-trivial = header round-tripped through both decoders / git produced a delta and gitoxide reproduced the target",
     );
     run.assume("git 2.39.5 (index-pack, cat-file, pack-objects) as oracle for pack contents; hand-written stored-zlib streams and pack assembly are trusted harness code (git index-pack validates them)");
@@ -1004,9 +1004,9 @@ pub fn run(run: &'static Run) {
     lap("git-reads-ours");
 
     // ---- deltas made by git ----
-    // quick: <=3 blocks over {b,E} plus <=2 blocks over {a,b,E,F} (28 texts); thorough: <=4 over {a,b,E} plus <=3 over {a,b,E,F}
-    let mut names = if run.quick() { text_names(&['b', 'E'], 3) } else { text_names(&['a', 'b', 'E'], 4) };
-    for n in text_names(&['a', 'b', 'E', 'F'], run.pick(2, 3)) {
+    // quick: <=3 blocks over {b,E} plus <=2 blocks over {a,b,E,F} (28 texts); thorough: <=3 blocks over {a,b,E} plus <=2 blocks over {a,b,E,F} (47 texts)
+    let mut names = if run.quick() { text_names(&['b', 'E'], 3) } else { text_names(&['a', 'b', 'E'], 3) };
+    for n in text_names(&['a', 'b', 'E', 'F'], 2) {
         if !names.contains(&n) {
             names.push(n);
         }
